@@ -267,6 +267,140 @@ pub fn big_objects(col: &Collector) -> CheckResult {
     Ok(())
 }
 
+// ------------------------------------------------------------------ long chains (LEB128 boundary on revisions)
+
+/// One right rotated 131 times without pruning, one key refreshed (keeping old secrets) after
+/// every rotation: the chain counts of the master key and of the user key cross 127/128.
+pub fn long_chains(col: &Collector) -> CheckResult {
+    let cc = Covercrypt::default();
+    let e = |e: Error| Fail::new("long-chains-failed", short_err(&e));
+    let (mut msk, _) = cc.setup().map_err(e)?;
+    msk.access_structure.add_anarchy("D".into()).map_err(e)?;
+    msk.access_structure.add_attribute(qa("D", "a"), hint(false), None).map_err(e)?;
+    msk.access_structure.add_attribute(qa("D", "h"), hint(true), None).map_err(e)?;
+    let mpk0 = cc.update_msk(&mut msk).map_err(e)?;
+    let ap = AccessPolicy::parse("D::a").unwrap();
+    let mut key = cc.generate_user_secret_key(&mut msk, &ap).map_err(e)?;
+    let (s0, x0) = cc.encaps(&mpk0, &ap).map_err(e)?;
+    for n in 1..=131usize {
+        let mpk = cc.rekey(&mut msk, &ap).map_err(e)?;
+        cc.refresh_usk(&mut msk, &mut key, true).map_err(e)?;
+        if n < 125 && n % 40 != 0 {
+            continue;
+        }
+        col.eval(1);
+        let mb = rt(&msk, "MasterSecretKey")?;
+        let wm = WMsk::decode(&mb).map_err(|e| Fail::new("codec-cannot-decode-msk", e))?;
+        let longest = wm.rights.iter().map(|(_, c)| c.len()).max().unwrap_or(0);
+        if wm.encode() != mb || longest != n + 1 {
+            return Err(Fail::new("long-chain-msk-codec", format!("after {n} rotations the serialized master key decodes to a longest chain of {longest} (expected {})", n + 1)));
+        }
+        let ub = rt(&key, "UserSecretKey")?;
+        let wu = WUsk::decode(&ub).map_err(|e| Fail::new("codec-cannot-decode-usk", e))?;
+        let longest = wu.rights.iter().map(|(_, c)| c.len()).max().unwrap_or(0);
+        if wu.encode() != ub || longest != n + 1 {
+            return Err(Fail::new("long-chain-usk-codec", format!("after {n} rotations the serialized user key decodes to a longest chain of {longest} (expected {})", n + 1)));
+        }
+        // the deserialized objects stand in for the originals
+        let key2: UserSecretKey = de(&ub).map_err(|e| Fail::new("roundtrip-deserialize-failed:UserSecretKey", e))?;
+        let (s1, x1) = cc.encaps(&mpk, &ap).map_err(e)?;
+        for (what, x, s) in [("oldest", &x0, &s0), ("newest", &x1, &s1)] {
+            match cc.decaps(&key2, x) {
+                Ok(Some(v)) if v == *s => {}
+                other => return Err(Fail::new("long-chain-key-unusable", format!("after {n} rotations the deserialized key does not open the {what} encapsulation: {:?}", other.map(|o| o.is_some()).map_err(|e| short_err(&e))))),
+            }
+        }
+        if n >= 127 {
+            col.nontrivial(&("long-chain", n));
+        }
+    }
+    let mut msk2: MasterSecretKey = de(&ser(&msk)?).map_err(|e| Fail::new("roundtrip-deserialize-failed:MasterSecretKey", e))?;
+    cc.refresh_usk(&mut msk2, &mut key, false).map_err(|er| Fail::new("long-chain-refresh-failed", short_err(&er)))?;
+    col.class("long-chains:verified");
+    Ok(())
+}
+
+// ------------------------------------------------------------------ pinned-release layout of current objects
+
+/// The pinned release wrote access structures without the next-id field (version 0). Current
+/// master keys, public keys and structures of several shapes — among them the empty structure of
+/// a master key fresh from `setup()` — are re-encoded in that layout through the codec: they must
+/// load, describe the same dimensions and attributes, and keep working.
+pub fn pinned_layout(col: &Collector) -> CheckResult {
+    let cc = Covercrypt::default();
+    let e = |e: Error| Fail::new("pinned-layout-failed", short_err(&e));
+    for shape in 0..4u8 {
+        let (mut msk, _) = cc.setup().map_err(e)?;
+        if shape >= 1 {
+            msk.access_structure.add_hierarchy("SEC".into()).map_err(e)?;
+        }
+        if shape >= 2 {
+            msk.access_structure.add_attribute(qa("SEC", "LOW"), hint(false), None).map_err(e)?;
+            msk.access_structure.add_attribute(qa("SEC", "TOP"), hint(true), Some("LOW")).map_err(e)?;
+        }
+        if shape >= 3 {
+            msk.access_structure.add_anarchy("DPT".into()).map_err(e)?;
+            msk.access_structure.add_attribute(qa("DPT", "FIN"), hint(false), None).map_err(e)?;
+        }
+        let mpk = cc.update_msk(&mut msk).map_err(e)?;
+        let what = ["empty structure (fresh from setup)", "one empty dimension", "one hierarchy", "two dimensions"][shape as usize];
+        let old = |mut w: WStructure| {
+            w.version = 0;
+            w.next_id = None;
+            w
+        };
+        let mut wm = WMsk::decode(&ser(&msk)?).map_err(|e| Fail::new("codec-cannot-decode-msk", e))?;
+        let v2_dims = wm.structure.dims.clone();
+        wm.structure = old(wm.structure);
+        let unread = |obj: &str, er: String| Fail::new(format!("pinned-layout-unreadable:{obj}"), format!("{obj} with {what}, written in the layout of the pinned release, no longer deserializes: {er}"));
+        let mut msk1: MasterSecretKey = de(&wm.encode()).map_err(|er| unread("master key", er))?;
+        let mut wp = WMpk::decode(&ser(&mpk)?).map_err(|e| Fail::new("codec-cannot-decode-mpk", e))?;
+        wp.structure = old(wp.structure);
+        let mpk1: MasterPublicKey = de(&wp.encode()).map_err(|er| unread("public key", er))?;
+        let ws = old(WStructure::decode(&ser(&msk.access_structure)?).map_err(|e| Fail::new("codec-cannot-decode-structure", e))?);
+        let _s1: AccessStructure = de(&ws.encode()).map_err(|er| unread("access structure", er))?;
+        col.eval(3);
+        let back = WMsk::decode(&ser(&msk1)?).map_err(|e| Fail::new("codec-cannot-decode-msk", e))?;
+        let mut a = back.structure.dims.clone();
+        let mut b = v2_dims.clone();
+        a.sort_by(|x, y| x.name.cmp(&y.name));
+        b.sort_by(|x, y| x.name.cmp(&y.name));
+        let same = a.len() == b.len()
+            && a.iter().zip(b.iter()).all(|(x, y)| {
+                let (mut xa, mut ya) = (x.attrs.clone(), y.attrs.clone());
+                if x.ordered == 0 {
+                    xa.sort_by(|p, q| p.name.cmp(&q.name));
+                    ya.sort_by(|p, q| p.name.cmp(&q.name));
+                }
+                x.name == y.name && x.ordered == y.ordered && xa == ya
+            });
+        if !same || back.rights.len() != wm.rights.len() || back.users != wm.users {
+            return Err(Fail::new("pinned-layout-differs", format!("master key with {what}: what was read from the pinned-release layout differs from the original")));
+        }
+        // the loaded objects keep working: a new attribute gets an unused id, keys and encapsulations interoperate
+        msk1.access_structure.add_anarchy("NEW".into()).map_err(|er| Fail::new("pinned-layout-object-unusable", short_err(&er)))?;
+        msk1.access_structure.add_attribute(qa("NEW", "n"), hint(false), None).map_err(|er| Fail::new("pinned-layout-object-unusable", short_err(&er)))?;
+        let mpk2 = cc.update_msk(&mut msk1).map_err(|er| Fail::new("pinned-layout-object-unusable", short_err(&er)))?;
+        let ids: Vec<u64> = WMsk::decode(&ser(&msk1)?).map_err(|e| Fail::new("codec-cannot-decode-msk", e))?.structure.dims.iter().flat_map(|d| d.attrs.iter().map(|a| a.id)).collect();
+        if ids.iter().collect::<std::collections::BTreeSet<_>>().len() != ids.len() {
+            return Err(Fail::new("pinned-layout-id-reused", format!("{what}: attribute ids after adding an attribute: {ids:?}")));
+        }
+        let k = cc.generate_user_secret_key(&mut msk1, &AccessPolicy::parse("NEW::n").unwrap()).map_err(|er| Fail::new("pinned-layout-object-unusable", short_err(&er)))?;
+        let (s, x) = cc.encaps(&mpk2, &AccessPolicy::parse("NEW::n").unwrap()).map_err(|er| Fail::new("pinned-layout-object-unusable", short_err(&er)))?;
+        if !matches!(cc.decaps(&k, &x), Ok(Some(v)) if v == s) {
+            return Err(Fail::new("pinned-layout-object-unusable", format!("{what}: key of the loaded master key does not open an encapsulation under its public key")));
+        }
+        // broadcast encapsulation under the loaded old-layout public key opens with that key too
+        let (s, x) = cc.encaps(&mpk1, &AccessPolicy::Broadcast).map_err(|er| Fail::new("pinned-layout-object-unusable", short_err(&er)))?;
+        if !matches!(cc.decaps(&k, &x), Ok(Some(v)) if v == s) {
+            return Err(Fail::new("pinned-layout-object-unusable", format!("{what}: broadcast encapsulation under the loaded public key does not open")));
+        }
+        col.nontrivial(&("pinned-layout", shape));
+    }
+    col.class("pinned-layout:verified");
+    Ok(())
+}
+
 // ------------------------------------------------------------------ golden vectors
 
 fn hexfield(v: &serde_json::Value, k: &str) -> Result<Vec<u8>, Fail> {
@@ -399,10 +533,18 @@ pub fn run(ctx: &Ctx, col: &Collector) -> Meta {
         report_fail(col, "big-objects", f, json!({"config": wire::CONFIG}));
         return meta();
     }
+    if let Err(f) = crate::runner::guarded(|| long_chains(col)) {
+        report_fail(col, "long-chains", f, json!({"config": wire::CONFIG}));
+        return meta();
+    }
+    if let Err(f) = crate::runner::guarded(|| pinned_layout(col)) {
+        report_fail(col, "pinned-layout", f, json!({"config": wire::CONFIG}));
+        return meta();
+    }
     run_cases(&ctx.run_cfg(ctx.n(1500, 30_000), 2), "header", header_strategy, col, check_header);
     let h = hc(ctx.thorough);
     run_hist(ctx, col, &h, ctx.n(3000, 25_000));
-    for c in ["header:metadata-absent", "header:metadata-empty", "header:metadata-non-empty", "golden:verified", "big-objects:verified"] {
+    for c in ["header:metadata-absent", "header:metadata-empty", "header:metadata-non-empty", "golden:verified", "big-objects:verified", "long-chains:verified", "pinned-layout:verified"] {
         if col.class_count(c) == 0 && !col.stopped() {
             col.note(format!("generator unhealthy: class {c} empty"));
         }
@@ -413,7 +555,7 @@ pub fn run(ctx: &Ctx, col: &Collector) -> Meta {
 fn meta() -> Meta {
     Meta {
         level: "exploration",
-        rule: "(1) random histories over the whole API with a serialization round-trip of the master key, latest public key, a user key or an encapsulation injected before random steps (the deserialized object replaces the original): for every round-trip, serialize().len() == length(), write() returns the number of bytes appended, deserialize(serialize(x)) == x and the independent codec decodes the bytes to the model state; every later Ok/Err outcome, serialized state and decapsulation verdict must still agree with the reference model; (2) encrypted headers and cleartext headers for all metadata / authentication-data shapes and flavours (strict round-trip, documented size formula, deserialized header decrypts to the same data, absent = empty metadata on the wire); (3) golden vectors serialized by the pinned release for this configuration: all objects deserialize and decode, golden keys open golden encapsulations / headers exactly as recorded, the golden master key refreshes golden keys, rekeys, issues keys that open new encapsulations, and an attribute added to the golden V1 structure gets a fresh id. Non-trivial = history with a round-trip followed by >= 3 asserted decapsulation outcomes or containing a rekey / effective disable; header shape class; each golden (key, encapsulation) pair".into(),
+        rule: "(1) random histories over the whole API with a serialization round-trip of the master key, latest public key, a user key or an encapsulation injected before random steps (the deserialized object replaces the original): for every round-trip, serialize().len() == length(), write() returns the number of bytes appended, deserialize(serialize(x)) == x and the independent codec decodes the bytes to the model state; every later Ok/Err outcome, serialized state and decapsulation verdict must still agree with the reference model; (2) encrypted headers and cleartext headers for all metadata / authentication-data shapes and flavours (strict round-trip, documented size formula, deserialized header decrypts to the same data, absent = empty metadata on the wire); (3) golden vectors serialized by the pinned release for this configuration: all objects deserialize and decode, golden keys open golden encapsulations / headers exactly as recorded, the golden master key refreshes golden keys, rekeys, issues keys that open new encapsulations, and an attribute added to the golden V1 structure gets a fresh id; (4) fixed large objects crossing every LEB128 boundary (630 rights, 240 targets, ids >= 140, long names, > 127 users) and one right rotated 131 times with a key refreshed after every rotation (chains of 126-132 revisions in master key and user key): strict round-trips, codec agreement, deserialized objects used; (5) current master keys, public keys and structures of four shapes (among them the empty structure of a fresh setup) re-encoded in the pinned release's layout through the codec must load to the same content and keep working. Non-trivial = history with a round-trip followed by >= 3 asserted decapsulation outcomes or containing a rekey / effective disable; header shape class; each golden (key, encapsulation) pair".into(),
         exhaustive: false,
         assumptions: vec!["golden vectors were produced from commit 8f3c295 (golden/gen) and their open/refuse matrix was checked by hand against the name-level cover relation".into()],
     }
@@ -428,6 +570,8 @@ pub fn replay(kind: &str, case: &serde_json::Value, col: &Collector) -> CheckRes
         }
         "golden" => golden(col),
         "big-objects" => big_objects(col),
+        "long-chains" => long_chains(col),
+        "pinned-layout" => pinned_layout(col),
         k => Err(Fail::new("replay-format", format!("unknown kind {k}"))),
     }
 }
